@@ -255,7 +255,8 @@ class Gram:
         names = [self.errname(i + 1) for i in range(len(self.rules))]
         lr = list(self.lr) + [0] * (len(self.rules) - len(self.lr))
         return dict(gi=self.gi, nodes=self.nodes, rules=self.rules, names=names, lr=lr,
-                    idents=[self.rname(i + 1) for i in range(len(self.rules))])
+                    idents=[self.rname(i + 1) for i in range(len(self.rules))],
+                    lrflags=getattr(self, "lrflags", None) or [])
 
     def text(self):
         return self.render_rules()
